@@ -808,6 +808,8 @@ class Engine:
                 return SClassRef(modinfo.classes[name])
             if name in modinfo.imports:
                 return self.resolve_import(modinfo.imports[name])
+            if name == "_logger":
+                return SOpaque("logger")
             if name in modinfo.globals_const:
                 key = ("glob", modinfo.name, name)
                 if key in self.externals:
